@@ -17,6 +17,7 @@
 import NdnVerif.C16.LemmasTime
 import NdnVerif.C16.Lemmas2
 import NdnVerif.Gen.C16LockFacts
+import NdnVerif.C16.Readv
 namespace Ndn.C16
 
 variable {σ σ2 L Res Op : Type}
@@ -166,6 +167,84 @@ theorem lookups_are_readers_mutators_are_writers :
     (Ndn.Gen.C16.methods.filter fun m => m.name == "FindNextHopsEnc" || m.name == "FindStrategyEnc").all (·.lock == "RLock") = true ∧
     (Ndn.Gen.C16.methods.filter fun m => m.sharedWrites != 0).all (·.lock == "Lock") = true := by
   decide
+
+/-! ## The NLSR readvertiser: a third mutex, taken inside the RIB critical section
+
+`NlsrReadvertiser.Announce/Withdraw` are called by the RIB while it holds its own mutex
+(`two_lock_exclusion`: at most one thread at a time), so the readvertiser's mutex is never contended; what
+matters is that no path leaves it locked (the next RIB operation would then block for ever *while holding the
+RIB mutex*, wedging registrations, listings and face teardown), and that the calls keep NLSR's view right. -/
+
+open Ndn.Gen.C16 in
+/-- `Announce` and `Withdraw` take the readvertiser's mutex before touching the advertised counts, release
+    it by a deferred unlock right after (no path can leave with it held: exactly these two lock operations),
+    and never call back into the RIB / FIB (whose mutex the caller holds) -/
+def rvDisciplinedFact (m : MethodFact) : Bool :=
+  m.lock == "Lock" && m.deferUnlock && m.lockOps == 2 && m.fibCalls == 0 && !m.callsRib && m.reentrant == 0
+
+theorem readvertiser_follows_lock_discipline :
+    Ndn.Gen.C16.readvertiser.all rvDisciplinedFact = true ∧
+    ["Announce", "Withdraw"].all (fun n => Ndn.Gen.C16.readvertiser.any fun m => m.name == n) = true := by
+  decide
+
+/-- what one call into the readvertiser does with its mutex -/
+inductive RvPath | lockUnlock | lockLeak | noLock
+deriving DecidableEq
+
+/-- the calls made by successive RIB operations (serialized by the RIB mutex), starting with the
+    readvertiser's mutex `held` or free; `none` = a call blocks for ever, its caller holding the RIB mutex -/
+def runRvPaths : Bool → List RvPath → Option Bool
+  | held, [] => some held
+  | held, .noLock :: ps => runRvPaths held ps
+  | true, .lockUnlock :: _ => none
+  | true, .lockLeak :: _ => none
+  | false, .lockUnlock :: ps => runRvPaths false ps
+  | false, .lockLeak :: ps => runRvPaths true ps
+
+/-- if no path leaks the mutex, no call ever blocks and the mutex is free after every operation -/
+theorem disciplined_readvertiser_never_blocks (ps : List RvPath) (h : ∀ p ∈ ps, p ≠ RvPath.lockLeak) :
+    runRvPaths false ps = some false := by
+  induction ps with
+  | nil => rfl
+  | cons p ps ih =>
+    have hp := h p (by simp)
+    have ht := ih (fun q hq => h q (by simp [hq]))
+    cases p with
+    | lockUnlock => simpa [runRvPaths] using ht
+    | lockLeak => exact absurd rfl hp
+    | noLock => simpa [runRvPaths] using ht
+
+/-- ... and one leaking path (an early `return` between Lock and Unlock) wedges the next call that locks -/
+theorem leaked_readvertiser_mutex_deadlocks (ps qs : List RvPath) (h : ∀ p ∈ ps, p ≠ RvPath.lockLeak) :
+    runRvPaths false (ps ++ RvPath.lockLeak :: RvPath.lockUnlock :: qs) = none := by
+  induction ps with
+  | nil => rfl
+  | cons p ps ih =>
+    have hp := h p (by simp)
+    have ht := ih (fun q hq => h q (by simp [hq]))
+    cases p with
+    | lockUnlock => simpa [runRvPaths] using ht
+    | lockLeak => exact absurd rfl hp
+    | noLock => simpa [runRvPaths] using ht
+
+/-- **The readvertiser keeps NLSR's view equal to the RIB**, for every history of RIB operations: the
+    advertised count of a prefix is its number of client-origin routes, counts never go negative, and after
+    the commands sent so far NLSR believes a prefix advertised iff the RIB holds a client route for it. -/
+theorem nlsr_view_matches_rib (ops : List C06.Op) (n : Name) :
+    let x := (({} : RR).runOps ops)
+    x.rv.count n = (clientAt x.spec n : Int) ∧ (viewOf x.rv.log n = true ↔ 0 < clientAt x.spec n) := by
+  have hi := rrInv_run ops {} rrInv_init
+  refine ⟨hi.counts n, ?_⟩
+  have := (hi.rv n).2
+  rw [hi.counts n] at this
+  simpa using this
+
+-- non-vacuity: two faces register the same prefix (client origin), one leaves: still advertised, one
+-- register command each, no unregister; then the other leaves: one unregister
+example : let x := (({} : RR).runOps [.reg [⟨8, [97]⟩] ⟨5, 65, 1, 0⟩, .reg [⟨8, [97]⟩] ⟨6, 65, 1, 0⟩, .cleanup 5])
+    x.rv.log = [(true, [⟨8, [97]⟩]), (true, [⟨8, [97]⟩])] ∧ x.rv.count [⟨8, [97]⟩] = 1 := by decide
+example : let x := (({} : RR).runOps [.reg [⟨8, [97]⟩] ⟨5, 65, 1, 0⟩, .reg [⟨8, [97]⟩] ⟨6, 65, 1, 0⟩, .cleanup 5, .unreg [⟨8, [97]⟩] 6 65])
+    x.rv.log = [(true, [⟨8, [97]⟩]), (true, [⟨8, [97]⟩]), (false, [⟨8, [97]⟩])] ∧ viewOf x.rv.log [⟨8, [97]⟩] = false := by decide
 
 /-! ## Why the discipline is needed: an update split over two critical sections is observable -/
 
